@@ -49,3 +49,26 @@ Theorem C08_sublookup_serves_no_failure : forall key f w w' o,
   subbuild_cache_lookup key f w = (w', inl (Some o)) ->
   subs_get (c_subs (w_old w)) key = Some (Some o) /\ op_raised o = false /\ forallb (fun s => negb (has_sf s)) (op_subs o) = true.
 Proof. exact sublookup_never_raised. Qed.
+
+(* ---- thread half (label: partial, at lock granularity) ---- *)
+From FB.Model Require Import Conc Skeleton.
+From FB.Proofs Require Import ClaimLaws FsLemmas ConcLaws.
+
+(* claiming a path is one critical section (check and insert under Cache._files_lock; likewise for
+   subbuild keys and for reused subtrees), so however the threads interleave their claims reach the
+   lock in some order: of n+1 threads claiming the same unclaimed path exactly the first passes *)
+Theorem C08_claim_exclusive : forall n s (p : path), claimed path path_eqb s p = false ->
+  snd (run_claims path path_eqb s (repeat p (S n))) = true :: repeat false n.
+Proof. intros. apply claim_exclusive; [exact path_eqb_eq | assumption]. Qed.
+
+Theorem C08_claimed_at_most_once : forall ks s (p : path),
+  List.length (filter (fun kb => path_eqb (fst kb) p && snd kb) (combine ks (snd (run_claims path path_eqb s ks)))) <= 1.
+Proof. intros. apply claim_at_most_once. exact path_eqb_eq. Qed.
+
+Theorem C08_claims_are_critical_sections : segments_justified = true.
+Proof. exact (proj2 table_checks). Qed.
+
+(* the first call is not disturbed: in _build_file the claim precedes moving the old file aside
+   (computed on the call order generated from the current source) *)
+Theorem C08_claim_precedes_backup : claim_before_backup = true.
+Proof. vm_compute. reflexivity. Qed.
